@@ -565,6 +565,24 @@ struct Collected {
     run: u64,
     case: Value,
     failure: Failure,
+    /// first run of the worker process that reported it
+    range_from: u64,
+}
+
+/// Does the failure (same oracle and class, same run) come back when a fresh
+/// process executes runs `from..=run`? For failures that depend on what the
+/// process did before the failing case (process-wide state).
+fn fails_with_process_history(profile: Profile, id: &str, tier: Tier, seed: u64, from: u64, run: u64, f: &Failure) -> bool {
+    if run == u64::MAX || from > run {
+        return false;
+    }
+    match spawn_worker(profile, id, tier, seed, from, run + 1, false) {
+        Ok(child) => {
+            let out = read_worker(child);
+            out.fails.iter().any(|(r, _, g)| *r == run && g.oracle == f.oracle && g.class == f.class)
+        }
+        Err(_) => false,
+    }
 }
 
 pub struct Known {
@@ -700,6 +718,7 @@ pub fn check_main(sc: &DynScenario, o: &CheckOpts) -> i32 {
                     run,
                     case,
                     failure: f,
+                    range_from: a,
                 });
             }
             if let Some(d) = out.done {
@@ -716,6 +735,7 @@ pub fn check_main(sc: &DynScenario, o: &CheckOpts) -> i32 {
                     run,
                     case: case.unwrap_or(Value::Null),
                     failure: crash_failure(sc.id, sig),
+                    range_from: a,
                 });
             } else {
                 harness_errors.push(format!(
@@ -736,6 +756,7 @@ pub fn check_main(sc: &DynScenario, o: &CheckOpts) -> i32 {
                 run: u64::MAX,
                 case,
                 failure: f,
+                range_from: 0,
             });
         }
         let _ = std::panic::take_hook();
@@ -810,6 +831,16 @@ pub fn check_main(sc: &DynScenario, o: &CheckOpts) -> i32 {
                 confirmed = confirm(&case, &mut min_detail);
             }
         }
+        // still not reproducible from the case alone: it may need what the
+        // reporting process did before it (process-wide state); re-execute
+        // that process's runs up to the failing one in a fresh process
+        let mut history: Option<(u64, u64)> = None;
+        if !confirmed && i < 6 && c.failure.oracle != "process-abort" {
+            if fails_with_process_history(c.profile, sc.id, o.tier, o.seed, c.range_from, c.run, &c.failure) {
+                history = Some((c.range_from, c.run + 1));
+                confirmed = true;
+            }
+        }
         let run_txt = if c.run == u64::MAX {
             "extra".to_string()
         } else {
@@ -836,14 +867,24 @@ pub fn check_main(sc: &DynScenario, o: &CheckOpts) -> i32 {
             minimised,
             case: case.clone(),
             original_case: if minimised { Some(c.case.clone()) } else { None },
-            how_to_replay: format!(
-                "./check replay {}   (seed-only: ./check {} --tier {} --seed {} --only-run {})",
-                path.display(),
-                sc.id,
-                o.tier.name(),
-                o.seed,
-                run_txt
-            ),
+            process_history: history,
+            how_to_replay: match history {
+                None => format!(
+                    "./check replay {}   (seed-only: ./check {} --tier {} --seed {} --only-run {})",
+                    path.display(),
+                    sc.id,
+                    o.tier.name(),
+                    o.seed,
+                    run_txt
+                ),
+                Some((a, b)) => format!(
+                    "./check replay {}   (the failure needs what its process did before: the replay executes runs {}..{} of seed {} in one fresh process)",
+                    path.display(),
+                    a,
+                    b,
+                    o.seed
+                ),
+            },
         };
         let _ = std::fs::write(&path, serde_json::to_vec_pretty(&rf).unwrap());
         report_lines.push(format!(
@@ -852,14 +893,18 @@ pub fn check_main(sc: &DynScenario, o: &CheckOpts) -> i32 {
             path.display()
         ));
         report_lines.push(format!(
-            "  oracle={} class={} profile={} run={} occurrences={} minimised={} reproduced_in_fresh_process={}",
+            "  oracle={} class={} profile={} run={} occurrences={} minimised={} reproduced_in_fresh_process={}{}",
             c.failure.oracle,
             c.failure.class,
             c.profile.name(),
             run_txt,
             counts.get(&sig).copied().unwrap_or(1),
             minimised,
-            confirmed
+            confirmed,
+            match history {
+                Some((a, b)) => format!(" (with the process history: runs {a}..{b})"),
+                None => String::new(),
+            }
         ));
         report_lines.push(format!("  first seen: {}", c.failure.detail));
         if let (true, Some(d)) = (minimised, &min_detail) {
@@ -1122,6 +1167,32 @@ pub fn replay_main(find: &dyn Fn(&str) -> Option<DynScenario>, path: &Path) -> i
             return 2;
         }
     };
+    if let Some((a, b)) = rf.process_history {
+        let hit = fails_with_process_history(rf.profile, sc.id, rf.tier, rf.verif_seed, a, b.saturating_sub(1), &rf.failure);
+        if hit {
+            println!("VIOLATION property={} replay={}", rf.property, path.display());
+            println!(
+                "  oracle={} class={} profile={} reproduced by executing runs {}..{} of seed {} in one fresh process",
+                rf.failure.oracle,
+                rf.failure.class,
+                rf.profile.name(),
+                a,
+                b,
+                rf.verif_seed
+            );
+            println!("  {}", rf.failure.detail);
+            return 1;
+        }
+        println!(
+            "replay {}: runs {}..{} pass on the current tree (recorded failure: {} / {})",
+            path.display(),
+            a,
+            b,
+            rf.failure.oracle,
+            rf.failure.class
+        );
+        return 0;
+    }
     if rf.case.is_null() {
         println!(
             "replay file holds no materialised case; use the seed: ./check {} --tier {} --seed {} --only-run {}",
